@@ -96,7 +96,7 @@ def sweep(base: bytes, subst_vals, insert_vals):
 
 
 SWEEP_VALS = [0, 9, 10, 11, 12, 13, 32, 33, 45, 58, 59, 61, 97, 98, 127, 128, 255]
-SWEEP_QUICK = [0, 9, 10, 11, 13, 32, 45, 58, 59, 61, 97, 255]
+SWEEP_QUICK = [0, 10, 11, 13, 32, 45, 58, 97, 255]
 
 
 def pure_inputs(ctx):
@@ -107,12 +107,12 @@ def pure_inputs(ctx):
     n_small = ctx.scale(4, 6)
     for d in M.small_strings(M.SMALL_ALPHABET, n_small):
         out.append(('small', d, len(d) <= ctx.scale(3, 5)))
-    for _ in range(ctx.scale(3000, 10000)):   # a sample of the longer ones
+    for _ in range(ctx.scale(1800, 10000)):   # a sample of the longer ones
         n = rng.randint(n_small + 1, n_small + 4)
         out.append(('small', bytes(rng.choice(M.SMALL_ALPHABET) for _ in range(n)), False))
     for tail in M.small_strings(b'-a\n ', ctx.scale(5, 6)):
         out.append(('multipart_small', MP_HEADER + tail, len(tail) <= 4))
-    for _ in range(ctx.scale(800, 6000)):
+    for _ in range(ctx.scale(500, 6000)):
         n = rng.randint(6, 12)
         out.append(('multipart_small',
                     MP_HEADER + bytes(rng.choice(b'--aa\n\n \r') for _ in range(n)), False))
@@ -124,8 +124,8 @@ def pure_inputs(ctx):
         for d in sweep(base, range(256) if full else (SWEEP_QUICK if ctx.quick else SWEEP_VALS),
                        range(256) if full else [10, 11, 13, 32, 45]):
             k += 1
-            out.append(('byte_sweep', d, k % 3 == 0))
-    for _ in range(ctx.scale(400, 2500)):
+            out.append(('byte_sweep', d, k % (4 if ctx.quick else 3) == 0))
+    for _ in range(ctx.scale(320, 2500)):
         out.append(('generated', M.gen_message(rng), True))
     for _ in range(ctx.scale(150, 1000)):
         out.append(('raw', M.gen_raw(rng, 600), True))
@@ -187,14 +187,26 @@ def section_pure(ctx, coq) -> None:
             continue
         (tiny_parse if tiny else parse_cases).append(enc)
         (tiny_in if tiny else parse_in).append(d)
-        if fam in ('raw', 'generated') and len(lines_cases) < ctx.scale(300, 1500):
+        if fam in ('raw', 'generated') and len(lines_cases) < ctx.scale(150, 1500):
             lines_cases.append(M.enc_lines_case(d, obs['lines']))
             lines_in.append(d)
         if want_fetch:
             loaded = res['loaded']
             qs = [('QBody', [], None, res['full']), ('QHeader', [], None, res['hdr']),
                   ('QText', [], None, res['txt'])] + res['partials']
+            qs += res['fields'][:2] if tiny else res['fields']
+            qs += res['binary']
             paths = [[1]] if tiny else M.tree_paths(tree, 8 if fam == 'byte_sweep' else 14)
+            if not tiny:
+                for p, _node in M.identity_paths(tree, 2):
+                    qs.append(('QBinary', p, None, M.direct_query(loaded, 'QBinary', p, None)))
+                    qs.append(('QBinarySize', p, None,
+                               M.direct_query(loaded, 'QBinarySize', p, None)))
+                for p in paths[:3]:
+                    names = M.gen_field_names(rng)
+                    inv = rng.random() < 0.5
+                    qs.append((('QFields', inv, names), p, None,
+                               M.direct_query(loaded, ('QFields', inv, names), p, None)))
             for p in paths:
                 for kind in ('QBody', 'QMime', 'QHeader', 'QText'):
                     if tiny and kind in ('QHeader', 'QText'):
@@ -205,7 +217,8 @@ def section_pure(ctx, coq) -> None:
                     o, n = rng.randint(0, len(full) + 1), rng.randint(0, len(full) + 2)
                     qs.append(('QBody', p, (o, n), M.direct_query(loaded, 'QBody', p, (o, n))))
             try:
-                fetch_cases.append(M.enc_fetch_case(d, obs['table'], res['size'], res['bs'], qs))
+                fetch_cases.append(M.enc_fetch_case(d, obs['table'], res['size'], res['bs'], qs,
+                                                    obs['nonid']))
                 fetch_in.append(d)
             except AssertionError as exc:
                 ctx.disagreement('fetch_direct', {'input': d.hex()[:2000],
@@ -252,8 +265,9 @@ def section_literal(ctx, coq) -> None:
     rng = ctx.rng
     ns = list(range(0, 130)) + [999, 1000, 1001, 4095, 4096, 4097, 9999, 10000, 65535, 65536,
                                 99999, 100000, 1048576]
-    ns += [rng.randint(0, 200000) for _ in range(ctx.scale(100, 600))]
+    ns += [rng.randint(0, 200000) for _ in range(ctx.scale(40, 600))]
     cases = []
+    cases8 = []
     keep = []
     for n in ns:
         payload = bytes(rng.randrange(256) for _ in range(min(n, 64))) * (n // 64 + 1)
@@ -275,7 +289,20 @@ def section_literal(ctx, coq) -> None:
             prefix = printed[:len(printed) - n] if n else printed
             cases.append(T.pair(T.N(n), M.enc_bytes(prefix)))
             keep.append(n)
+            printed8 = bytes(LiteralString(obj, True))       # literal8 of BINARY items
+            try:
+                val, pos = M.read_sexp(printed8, 0)
+                ok = val == ('lit', payload, n) and pos == len(printed8) and printed8[:1] == b'~'
+            except M.RespError:
+                ok = False
+            if not ok:
+                ctx.failure('literal_len', f'binary LiteralString of {n} octets is not read back',
+                            {'n': n, 'printed_head': printed8[:40].hex()},
+                            {'kind': 'literal8_prefix_wrong'})
+            cases8.append(T.pair(T.N(n), M.enc_bytes(printed8[:len(printed8) - n] if n
+                                                     else printed8)))
     coq.submit('literal', 'N * bytes', cases, 'chk_literal', keep, shard=400, jobs=2)
+    coq.submit('literal8', 'N * bytes', cases8, 'chk_literal8', keep, shard=400, jobs=2)
 
 
 # ------------------------------------------------------------- e2e section
@@ -290,13 +317,11 @@ def e2e_inputs(ctx, backend: str):
     vals = [0, 10, 13, 32, 45, 58, 255]
     swept = [d for base in BASES for d in sweep(base, vals, [10, 13, 32, 45])]
     rng.shuffle(swept)
-    for d in swept[:ctx.scale(120, 500) if dict_b else ctx.scale(25, 100)]:
+    for d in swept[:ctx.scale(120, 500) if dict_b else ctx.scale(25, 80)]:
         out.append(('byte_sweep', d))
-    for _ in range(ctx.scale(220, 1000) if dict_b else ctx.scale(50, 200)):
-        # maildir: mostly LF-only messages, which stdlib mailbox gives back unchanged
-        out.append(('generated', M.gen_message(rng, style=None if dict_b or rng.random() < 0.3
-                                               else 'lf')))
-    for _ in range(ctx.scale(30, 150) if dict_b else ctx.scale(70, 300)):
+    for _ in range(ctx.scale(220, 1000) if dict_b else ctx.scale(50, 150)):
+        out.append(('generated', M.gen_message(rng)))
+    for _ in range(ctx.scale(30, 150) if dict_b else ctx.scale(70, 200)):
         out.append(('clean_lf', M.gen_clean_lf(rng)))
     for _ in range(ctx.scale(80, 300) if dict_b else ctx.scale(20, 60)):
         out.append(('raw', M.gen_raw(rng, 600)))
@@ -304,6 +329,10 @@ def e2e_inputs(ctx, backend: str):
         out.append(('raw_big', bytes(rng.randrange(256) for _ in range(rng.randint(3000, 65536)))))
     out.append(('raw_big', bytes(rng.choice(b'ab\r\n') for _ in range(65536))))
     return out
+
+
+def all_identity(tree) -> bool:
+    return tree['identity'] and all(all_identity(s) for s in tree['subs'])
 
 
 async def one_message(ctx, e, d: bytes, fam: str, rng, coq_cases, coq_inputs,
@@ -318,15 +347,22 @@ async def one_message(ctx, e, d: bytes, fam: str, rng, coq_cases, coq_inputs,
             lst.append({'backend': backend, 'reply': r[-120:].decode('latin-1'),
                         'exc': repr(e.conn.exc)[:200], 'data': d[:600].hex()})
         return 'append_rejected'
-    expect_loaded = M.stdlib_roundtrip(d) if backend == 'maildir' else None
-    if expect_loaded is not None:
-        h = ctx.extra.setdefault('maildir_ser_hypothesis', {'holds': 0, 'fails': 0})
-        h['holds' if expect_loaded['append'] == d == expect_loaded['copy'] else 'fails'] += 1
+    # maildir stores and reads the literal byte for byte since abfc543: the
+    # same byte-exact expectation as for the dict backend
+    expect_loaded = None
+    served = d if expect_loaded is None else expect_loaded['append']
+    binary = None
     try:
         tree = M.observe_parse(d)['tree']
         paths = M.tree_paths(tree, 8)
+        stree = tree if served == d else M.observe_parse(served)['tree']
+        # BINARY only where the implementation has a decoder (an unknown
+        # Content-Transfer-Encoding makes FETCH BINARY fail: C06's finding)
+        if all_identity(stree):
+            binary = [[]] + [p for p, _n in M.identity_paths(stree, 2)]
     except (Exception, RecursionError):
         paths = [[1]]
+    fields = (M.gen_field_names(rng), M.gen_field_names(rng))
     partials, seen_o = [], set()
     for o, n in M.gen_partials(rng, len(d), 8):
         if n >= 1 and o not in seen_o and len(partials) < 4:
@@ -361,12 +397,16 @@ async def one_message(ctx, e, d: bytes, fam: str, rng, coq_cases, coq_inputs,
             for p, _n in M.rfc_parts(bs)[:12]:
                 if p not in parts:
                     parts.append(p)
-        items, raw = await e.fetch_all(b'*', parts, partials)
+        for p in binary or ():
+            if p and p not in parts:
+                parts.append(p)
+        items, raw = await e.fetch_all(b'*', parts, partials, fields, binary)
         if isinstance(items, str):
             ctx.failure('body_verbatim', f'[{backend}/{where}] {items}', dict(rep, where=where),
                         {'kind': 'fetch_failed', 'where': where, 'backend': backend})
             return None
-        eff = M.check_items(ctx, d, items, partials, rep, where, backend, expect_loaded)
+        eff = M.check_items(ctx, d, items, partials, rep, where, backend, expect_loaded,
+                            fields, binary)
         if bs is not None and eff is not None:
             def key(p, suffix=b''):
                 return b'BODY[' + b'.'.join(b'%d' % i for i in p) + suffix + b']'
@@ -383,7 +423,8 @@ async def one_message(ctx, e, d: bytes, fam: str, rng, coq_cases, coq_inputs,
     eff = orig['eff']
     if with_coq and eff is not None and len(eff) <= COQ_MAX and eff:
         try:
-            table = M.observe_parse(eff)['table']
+            eobs = M.observe_parse(eff)
+            table = eobs['table']
         except (Exception, RecursionError):
             table = None
         if table is not None:
@@ -397,10 +438,26 @@ async def one_message(ctx, e, d: bytes, fam: str, rng, coq_cases, coq_inputs,
                 ps = b'.'.join(b'%d' % i for i in p)
                 qs.append(('QBody', p, None, M.lit(items.get(b'BODY[' + ps + b']')) or b''))
                 qs.append(('QMime', p, None, M.lit(items.get(b'BODY[' + ps + b'.MIME]')) or b''))
+            qs.append(('QHeader', [], None, M.lit(items.get(b'RFC822.HEADER')) or b''))
+            qs.append(('QText', [], None, M.lit(items.get(b'RFC822.TEXT')) or b''))
+            for inv, names, prefix in ((False, fields[0], b'BODY[HEADER.FIELDS ('),
+                                       (True, fields[1], b'BODY[HEADER.FIELDS.NOT (')):
+                got = M.lit(M.item_with_prefix(items, prefix))
+                if got is not None:
+                    qs.append((('QFields', inv, names), [], None, got))
+            for p in binary or ():
+                ps = b'.'.join(b'%d' % i for i in p)
+                got = M.lit(items.get(b'BINARY[' + ps + b']'))
+                sz = items.get(b'BINARY.SIZE[' + ps + b']')
+                if got is not None:
+                    qs.append(('QBinary', p, None, got))
+                if isinstance(sz, tuple) and sz[1].isdigit() and int(sz[1]) < 65536:
+                    qs.append(('QBinarySize', p, None, int(sz[1])))
             size = items.get(b'RFC822.SIZE')
             size = int(size[1]) if isinstance(size, tuple) and size[1].isdigit() else 0
             try:
-                coq_cases.append(M.enc_fetch_case(eff, table, size, orig['bs'], qs))
+                coq_cases.append(M.enc_fetch_case(eff, table, size, orig['bs'], qs,
+                                                  eobs['nonid']))
                 coq_inputs.append(d)
             except AssertionError as exc:
                 ctx.disagreement(f'fetch_imap_{backend}', {'input': d.hex()[:2000],
@@ -476,7 +533,7 @@ async def siblings_step(ctx, e, d: bytes, rep, rng, partials, expect_d) -> None:
         rep_s = {'data': s.hex() if len(s) <= 4096 else s[:4096].hex() + '...', 'len': len(s),
                  'backend': backend, 'family': 'sibling:' + kind,
                  'stored_before': rep['data'], 'sequence': ['APPEND stored_before', 'APPEND data']}
-        expect_s = M.stdlib_roundtrip(s) if backend == 'maildir' else None
+        expect_s = None
         parts_ok = [(o, n) for o, n in partials if n >= 1]
         items, _raw = await e.fetch_all(b'*', [], parts_ok)
         if isinstance(items, str):
@@ -542,7 +599,7 @@ async def e2e_run(ctx, backend: str, inputs, coq_cases, coq_inputs):
                 e.close()
                 e = await M.E2E(backend).start()
                 e.copy_ok = copy_ok
-            with_coq = n_coq < ctx.scale(250, 1200) and fam != 'small'
+            with_coq = n_coq < ctx.scale(200, 1200) and fam != 'small'
             st = await one_message(ctx, e, d, fam, rng, coq_cases, coq_inputs, with_coq)
             n_coq = len(coq_cases)
             stats[st] = stats.get(st, 0) + 1
@@ -556,9 +613,9 @@ def section_e2e(ctx, backend: str, coq) -> None:
     from ..pymap_env import run
     inputs = e2e_inputs(ctx, backend)
     coq_cases, coq_inputs = [], []
-    stats = run(e2e_run(ctx, backend, inputs, coq_cases, coq_inputs), timeout=3000)
+    stats = run(e2e_run(ctx, backend, inputs, coq_cases, coq_inputs), timeout=20000)
     ctx.extra.setdefault('imap_level', {})[backend] = {'messages': len(inputs), 'status': stats}
-    coq.submit(f'fetch_imap_{backend}', 'fetch_case', coq_cases, 'chk_fetch_imap', coq_inputs,
+    coq.submit(f'fetch_imap_{backend}', 'fetch_case', coq_cases, 'chk_fetch', coq_inputs,
                shard=100, jobs=4)
 
 
@@ -578,9 +635,8 @@ def run(ctx) -> None:
     ctx.assumptions += [
         'stdlib email decides maintype/subtype/boundary of a Content-Type header; the model '
         'takes these decisions as data observed from the implementation',
-        'maildir: stdlib mailbox re-serialisation is the function ser of the model; the '
-        'hypothesis ser d = d is measured per message (stdlib only) and is false for many '
-        'inputs (finding C03-F3)',
+        'maildir: mailbox.Maildir.get_bytes replaces os.linesep by LF when reading (function rd '
+        'of the model, the identity on POSIX); checked end to end by the byte-exact monitor',
         'CPython bytes/memoryview slicing and bytes.find are the semantics of the implementation side',
     ]
     ctx.check_proofs(['Mime/MimeCheck'])
@@ -625,7 +681,7 @@ def replay(ctx, obj) -> int:
                 if isinstance(items, str):
                     print('fetch failed:', items)
                     return
-                exp = M.stdlib_roundtrip(d) if backend == 'maildir' else None
+                exp = None
                 M.check_items(ctx, d, items, [], dict(obj), 'sibling', backend, exp)
                 print('stored first:', first[:120])
                 print('BODY[] of the second:', (M.lit(items.get(b'BODY[]')) or b'')[:120])
